@@ -24,9 +24,14 @@
        every misbehaving Eq / Borrow implementation.
      - At history level the environment is env_map sc / env_set sc for an
        ARBITRARY script sc (Model/Exec.v): with sc_adv = true every ==
-       answer is negated pseudo-randomly (seed sc_seed, call counter n_eq), and
-       the fault kinds can in addition make a comparison panic.  The theorems
-       quantify over all sc.
+       answer is computed by Exec.adv_answer, which has FOUR kinds selected by
+       sc_seed mod 4: 0 = the truth negated pseudo-randomly (seed, call counter
+       n_eq), 1 = everything equals everything, 2 = nothing equals anything (not
+       even itself), 3 = the answer alternates between two calls on the same
+       operands; the fault kinds can in addition make a comparison panic.  The
+       theorems quantify over all sc.  The scripts are still a (finite-state)
+       family; histories for a completely ARBITRARY environment E are covered by
+       the Dict / Dict2 / SetDict interpreters and by cstep (addenda below).
      - memory-unsafety is the outcome UB of the model: any unchecked slot
        access outside the array or to a slot without a live element, an
        unchecked write beyond the array, a wrapped length.  wp excludes UB; the
@@ -74,6 +79,10 @@
      - get_disjoint_unchecked_mut is an `unsafe fn` whose contract (distinct
        keys) is not assumed by C17_disjoint_unchecked_safe: the model's version
        is safe without it.
+   SECOND ADDENDUM (very end of this file, lemmas in Proofs/MoreHist.v):
+     C17_crun_any_env_safe, C17_crun_NoDup (richer histories, arbitrary E);
+     C17_run_exact_calm, C17_run_exact_Calm, C17_srun_exact_calm (EXACTLY once under
+     a lying == that never makes Drop panic); C17_anyenv_len_matches_iter (+2, _c, _s)
    AUDIT ADDENDUM (end of this file, lemmas in Proofs/MoreOwned.v) - NOW COVERED:
      - the script family of Exec.v is a PRNG family; history-level safety for an
        ARBITRARY environment (any answer sequence) on the Dict / Dict2 / SetDict
@@ -607,3 +616,231 @@ Example C17_example_modes :
   (forall n t, adv_answer 5 n t = true) /\ (forall n t, adv_answer 6 n t = false) /\
   (forall t, adv_answer 7 0 t = t /\ adv_answer 7 1 t = negb t).
 Proof. repeat split; reflexivity. Qed.
+
+
+(* ========================================================================== *)
+(* ADDENDUM 2 (second audit round).  New lemmas: Proofs/MoreHist.v.
+   cop / cstep / cfinal / c_ins / c_outs / c_ok / c_safe / cins / couts: see
+   ADDENDUM 2 of Props/C02.v (a richer history interpreter for an ARBITRARY
+   environment: stateful panicking retain predicates and entry closures,
+   get_disjoint_mut, clone_from, collect from a panicking source, ==, consuming
+   iterators dropped or forgotten, forgotten drains, all Dict2 operations).
+   DropCalm E := no Drop ever panics; Calm E := DropCalm E and no == ever panics
+   (== may answer ANYTHING, differently each time).                            *)
+(* ========================================================================== *)
+Require Import Proofs.MoreHist.
+
+(* -------------------------------------------------------------------------- *)
+(* "remain memory-safe" along histories of the richer interpreter: any == / Clone /
+   Drop / predicate / closure / source-iterator behaviour *)
+Theorem C17_crun_any_env_safe :
+  forall (K V Q T : Type) (E : env K V Q T) (debug : bool) (ops : list cop) (w : world K V T),
+  WF (self w) ->
+  Forall c_safe ops ->
+  exists wf : world K V T,
+    cfinal E debug ops w = Some wf /\ WF (self wf) /\ cap (self wf) = cap (self w).
+Proof. exact (@crun_any_env_safe). Qed.
+Print Assumptions C17_crun_any_env_safe.
+
+(* "every element is still destroyed exactly once" along them: at most once for
+   EVERY environment ... *)
+Theorem C17_crun_NoDup :
+  forall (K V Q T : Type) (E : env K V Q T) (debug : bool) (ops : list cop)
+    (w wf : world K V T) (extra : list N),
+  WF (self w) ->
+  Forall (c_ok E) ops ->
+  NoDup (owned E (self w) ++ cins E debug ops w ++ extra ++ dropped (log w)) ->
+  cfinal E debug ops w = Some wf ->
+  NoDup (owned E (self wf) ++ couts E debug ops w ++ extra ++ dropped (log wf)).
+Proof. exact (@crun_NoDup). Qed.
+Print Assumptions C17_crun_NoDup.
+
+(* ... and EXACTLY once (no `lost`, Tidy kept) for the core case of this
+   property: an == that LIES in any way (it may even panic) while Drop does not
+   panic.  From a Tidy state every history keeps Tidy and every identity stored at
+   the start or handed in is, at the end, in exactly one place: stored, with the
+   caller, or destroyed.  op_pouts_c: what a panicking get_mut / index_mut leaves
+   with the caller.  Map (13 operations) and Set (9). *)
+Theorem C17_run_exact_calm :
+  forall (K V Q T : Type) (E : env K V Q T) (debug : bool) (ops : list dop) (w : world K V T),
+  DropCalm E ->
+  WF (self w) ->
+  Tidy (self w) ->
+  Forall (op_ok E) ops ->
+  exists wf : world K V T,
+    mfinal E debug ops w = Some wf /\
+    WF (self wf) /\
+    cap (self wf) = cap (self w) /\
+    Tidy (self wf) /\
+    Permutation.Permutation
+      (owned E (self wf) ++
+       gouts (mstep E debug) (op_outs E) (op_pouts_c E) ops w ++ dropped (log wf))
+      (owned E (self w) ++ flat_map (op_ins E) ops ++ dropped (log w)).
+Proof. exact (@run_exact_calm). Qed.
+Print Assumptions C17_run_exact_calm.
+
+Theorem C17_run_exact_Calm :
+  forall (K V Q T : Type) (E : env K V Q T) (debug : bool) (ops : list dop) (w : world K V T),
+  Calm E ->
+  WF (self w) ->
+  Tidy (self w) ->
+  Forall (op_ok E) ops ->
+  exists wf : world K V T,
+    mfinal E debug ops w = Some wf /\
+    WF (self wf) /\
+    cap (self wf) = cap (self w) /\
+    Tidy (self wf) /\
+    Permutation.Permutation
+      (owned E (self wf) ++
+       gouts (mstep E debug) (op_outs E) (op_pouts_c E) ops w ++ dropped (log wf))
+      (owned E (self w) ++ flat_map (op_ins E) ops ++ dropped (log w)).
+Proof. exact (@run_exact_Calm). Qed.
+Print Assumptions C17_run_exact_Calm.
+
+Theorem C17_srun_exact_calm :
+  forall (K Q T : Type) (E : env K unit Q T) (debug : bool),
+  idV E tt = [] ->
+  forall (ops : list sop) (w : world K unit T),
+  DropCalm E ->
+  WF (self w) ->
+  Tidy (self w) ->
+  exists wf : world K unit T,
+    smfinal E debug ops w = Some wf /\
+    WF (self wf) /\
+    cap (self wf) = cap (self w) /\
+    Tidy (self wf) /\
+    Permutation.Permutation (owned E (self wf) ++ souts E debug ops w ++ dropped (log wf))
+      (owned E (self w) ++ flat_map (sop_ins E) ops ++ dropped (log w)).
+Proof. exact (@srun_exact_calm). Qed.
+Print Assumptions C17_srun_exact_calm.
+
+(* -------------------------------------------------------------------------- *)
+(* "len() ... matches what iteration yields" for an ARBITRARY environment after
+   ANY history, with exhaustion: S len calls of next() yield exactly the len slots
+   0 .. len-1 and then None, and the exhausted cursor stays exhausted.
+   iter_exhausts w := the conclusion of C17_WF_iter_exhausts *)
+Theorem C17_WF_iter_exhausts :
+  forall (K V T : Type) (w : world K V T),
+  WF (self w) ->
+  len (self w) <= cap (self w) /\
+  wp (c <- iter;; IterSpec.iter_run (S (len (self w))) c)
+    (fun (res : list nat * cursor) (w' : world K V T) =>
+       w' = w /\ fst res = seq 0 (len (self w)) /\ length (fst res) = len (self w) /\
+       snd res = (len (self w), len (self w)) /\
+       wp (iter_next (snd res))
+          (fun (r : option nat * cursor) (w'' : world K V T) => w'' = w /\ fst r = None /\ snd r = snd res)
+          (fun _ : world K V T => False) w)
+    (fun _ : world K V T => False) w.
+Proof. exact (@WF_iter_exhausts). Qed.
+Print Assumptions C17_WF_iter_exhausts.
+
+Theorem C17_anyenv_len_matches_iter :
+  forall (K V Q T : Type) (E : env K V Q T) (debug : bool) (ops : list dop)
+    (w wf : world K V T), WF (self w) -> mfinal E debug ops w = Some wf -> iter_exhausts wf.
+Proof. exact (@anyenv_len_matches_iter). Qed.
+Print Assumptions C17_anyenv_len_matches_iter.
+
+Theorem C17_anyenv_len_matches_iter2 :
+  forall (K V Q T : Type) (E : env K V Q T) (debug : bool) (ops : list dop2)
+    (w wf : world K V T), WF (self w) -> mfinal2 E debug ops w = Some wf -> iter_exhausts wf.
+Proof. exact (@anyenv_len_matches_iter2). Qed.
+Print Assumptions C17_anyenv_len_matches_iter2.
+
+Theorem C17_anyenv_len_matches_iter_c :
+  forall (K V Q T : Type) (E : env K V Q T) (debug : bool) (ops : list cop)
+    (w wf : world K V T),
+  WF (self w) -> Forall c_safe ops -> cfinal E debug ops w = Some wf -> iter_exhausts wf.
+Proof. exact (@anyenv_len_matches_iter_c). Qed.
+Print Assumptions C17_anyenv_len_matches_iter_c.
+
+Theorem C17_anyenv_len_matches_iter_s :
+  forall (K Q T : Type) (E : env K unit Q T) (debug : bool) (ops : list sop)
+    (w wf : world K unit T),
+  WF (self w) -> smfinal E debug ops w = Some wf -> iter_exhausts wf.
+Proof. exact (@anyenv_len_matches_iter_s). Qed.
+Print Assumptions C17_anyenv_len_matches_iter_s.
+
+(* -------------------------------------------------------------------------- *)
+(* non-vacuity: C17_srun_NoDup / C17_run2_NoDup and the calm theorems under LYING
+   environments.  Set histories from the empty set of capacity 3: seed 5 =
+   everything equals everything (insert of class 5 twice: the second is "already
+   there"; take(class 5) takes the wrong element ...), seed 6 = nothing equals
+   anything (duplicates are stored, the 4th insert overflows).  In every run the
+   eight identities 1..8 are each stored, with the caller, or destroyed - once. *)
+Definition C17_sops : list (@sop key query) :=
+  [SoInsert (k_ 1 5); SoInsert (k_ 2 5); SoInsert (k_ 3 6); SoReplace (k_ 4 6); SoTake (QCls 5); SoRemove (QCls 6);
+   SoExtend [k_ 5 7; k_ 6 7; k_ 7 8]; SoRetain (fun k => N.eqb (kcls k) 7); SoInsert (k_ 8 9)].
+Definition C17_ws0 : world key unit cstate := {| cb := cs0; log := []; self := new_map 3 |}.
+
+Example C17_example_srun_hyps :
+  forall sc, idV (env_set sc) tt = [] /\ WF (self C17_ws0) /\ Tidy (self C17_ws0) /\
+  NoDup (owned (env_set sc) (self C17_ws0) ++ flat_map (sop_ins (env_set sc)) C17_sops ++ dropped (log C17_ws0)) /\
+  (sc_fk sc = 0%N -> DropCalm (env_set sc)).
+Proof.
+  intros sc. split; [reflexivity|]. split; [apply WF_new|].
+  split; [intros i _ Hn; destruct i as [|[|[|i]]]; try reflexivity; exfalso; apply Hn; destruct i; reflexivity|].
+  split.
+  - vm_compute. repeat constructor; cbn [In]; intros H;
+      repeat (destruct H as [H | H]; try discriminate H); exact H.
+  - intros Hf. split; intros s k; cbn [env_set dropK dropV fst]; [|reflexivity].
+    unfold drop_boom. rewrite Hf. reflexivity.
+Qed.
+
+Example C17_example_srun_always_equal :
+  smrun (env_set (C17_sc_adv 5)) false C17_sops C17_ws0 =
+    [SBool true; SBool false; SBool false; SElem (k_ 1 5); SElem (k_ 4 6); SBool false; SUnit; SUnit; SBool false] /\
+  match smfinal (env_set (C17_sc_adv 5)) false C17_sops C17_ws0 with
+  | Some wf => owned (env_set (C17_sc_adv 5)) (self wf) = [5]%N /\
+               souts (env_set (C17_sc_adv 5)) false C17_sops C17_ws0 = [1; 4]%N /\
+               dropped (log wf) = [2; 3; 6; 7; 8]%N
+  | None => False
+  end.
+Proof. vm_compute. repeat split; reflexivity. Qed.
+
+Example C17_example_srun_never_equal :
+  smrun (env_set (C17_sc_adv 6)) false C17_sops C17_ws0 =
+    [SBool true; SBool true; SBool true; SPanic; SNone; SBool false; SPanic; SUnit; SBool true] /\
+  match smfinal (env_set (C17_sc_adv 6)) false C17_sops C17_ws0 with
+  | Some wf => owned (env_set (C17_sc_adv 6)) (self wf) = [8]%N /\
+               souts (env_set (C17_sc_adv 6)) false C17_sops C17_ws0 = [] /\
+               dropped (log wf) = [4; 5; 6; 7; 1; 3; 2]%N
+  | None => False
+  end.
+Proof. vm_compute. repeat split; reflexivity. Qed.
+
+(* a Dict2 history (remove, entry().or_insert, drain(1)+drop, extend, iterate,
+   insert, drain(0)+drop) on m3 under "nothing equals anything": or_insert into
+   the full map is rejected, extend stores two keys of the SAME class; all 14
+   identities end with the caller (1 2, drained) or destroyed, none twice *)
+Definition C17_ops2 : list (@dop2 key vobj query) :=
+  [DBase (DRemove (QCls 6)); DOrInsert (k_ 7 5) (v_ 8 1); DDrain 1;
+   DExtend [(k_ 9 1, v_ 10 1); (k_ 11 1, v_ 12 2)]; DIterAll; DBase (DInsert (k_ 13 1) (v_ 14 3)); DDrain 0].
+
+Example C17_example_run2_hyps :
+  forall sc, Forall (op2_ok (env_map sc)) C17_ops2 /\
+  NoDup (owned (env_map sc) (self (w_of m3)) ++ flat_map (op2_ins (env_map sc)) C17_ops2 ++ dropped (log (w_of m3))).
+Proof.
+  intros sc. split; [repeat constructor|].
+  vm_compute. repeat constructor; cbn [In]; intros H;
+    repeat (destruct H as [H | H]; try discriminate H); exact H.
+Qed.
+
+Example C17_example_run2_never_equal :
+  mrun2 (env_map (C17_sc_adv 6)) false C17_ops2 (w_of m3) =
+    [RBase RNone; RPanic2; RItems [(k_ 1 5, v_ 2 7)]; RBase RUnit;
+     RItems [(k_ 9 1, v_ 10 1); (k_ 11 1, v_ 12 2)]; RBase RNone; RItems []] /\
+  match mfinal2 (env_map (C17_sc_adv 6)) false C17_ops2 (w_of m3) with
+  | Some wf => owned (env_map (C17_sc_adv 6)) (self wf) = [] /\
+               mouts2 (env_map (C17_sc_adv 6)) false C17_ops2 (w_of m3) = [1; 2]%N /\
+               dropped (log wf) = [8; 7; 3; 4; 5; 6; 9; 10; 11; 12; 13; 14]%N
+  | None => False
+  end.
+Proof. vm_compute. repeat split; reflexivity. Qed.
+
+(* Calm holds of every adversarial script without injected faults *)
+Example C17_example_Calm : forall seed, Calm (env_map (C17_sc_adv seed)).
+Proof.
+  intros seed. split; [split; intros; reflexivity|].
+  split; intros; cbn [env_map eqK eqKQ]; unfold eq_answer; cbn [C17_sc_adv sc_fk sc_adv N.eqb andb fst];
+    destruct (adv_answer _ _ _); discriminate.
+Qed.
